@@ -499,12 +499,14 @@ class MailboxSet(MailboxSetInterface[MailboxData]):
                 maildir = self._layout.get_folder(name, self.delimiter)
             except FileNotFoundError as exc:
                 raise KeyError(name) from exc
+        # A folder that the layout added as the parent of another one has no
+        # UID list file until now, whether the name was seen before or not.
+        path = self._layout.get_path(name, self.delimiter)
+        async with UidList.with_init(path) as uidl:
+            mailbox_id = ObjectId(uidl.global_uid)
         if name in self._cache:
             mbx = self._cache[name]
         else:
-            path = self._layout.get_path(name, self.delimiter)
-            async with UidList.with_init(path) as uidl:
-                mailbox_id = ObjectId(uidl.global_uid)
             mbx = MailboxData(mailbox_id, maildir, path)
             self._cache[name] = mbx
         return await mbx.reset()
